@@ -284,6 +284,8 @@ structure Th where
   committed : Bool := false
   /-- (thread 0) row handlers produced by the scan of a DELETE -/
   mail   : Option (List (Key × Nat)) := none
+  /-- (thread 0) epoch the update transaction of a DELETE pinned (under the table lock) -/
+  delE   : Option Nat := none
   res    : Option Res := none
   /-- reader: rows visible at pin time (ghost), rows fetched so far -/
   expect : Option (List Int) := none
@@ -369,6 +371,7 @@ inductive Act where
   | unpin (th : Tid) (e : Nat)
   | txnPinned (th : Tid) (m : Mode) (t : Nat)
   | txnLocked (th : Tid)
+  | lockBegin (th : Tid)
   | commitBegin (th : Tid)
   | commitA (th : Tid)
   | append (th : Tid)
@@ -409,6 +412,11 @@ def cpSettled (s : Sys) (th : Tid) : Bool :=
       (match t.cpPlan with | some _ => t.committed | none => true)
     else (heldBy s tb).isSome
 
+/-- `commit_inner` (since the DELETE fix): a row handler of a row-set that is not in the update
+transaction's snapshot any more (a compaction replaced it after the scan) makes the DELETE fail -/
+def handlersGone (snap : Snap) (hs : List (Key × Nat)) : Bool :=
+  hs.any (fun h => !snap.rs.contains h.1)
+
 /-- result of a finished command -/
 def resultOf (s : Sys) (th : Tid) (t : Th) : Option Res :=
   match t.cmd with
@@ -435,7 +443,17 @@ def resultOf (s : Sys) (th : Tid) (t : Th) : Option Res :=
           else (match t.btab with
                 | some tb => if s.tables.contains tb then none else some (.err .notfound)
                 | none => none)
-      | .insert n _ | .delete n _ _ | .select n | .count n =>
+      | .delete n _ _ =>
+          if !t.isBound then (if (lookupName s n).isNone then some (.err .bind) else none)
+          else (match t.btab with
+                | some tb =>
+                    if !s.tables.contains tb then some (.err .notfound)
+                    else (match t.mail, t.delE with
+                          | some hs, some e =>
+                              if handlersGone (s.k.status e) hs then some (.err .notfound) else none
+                          | _, _ => none)
+                | none => none)
+      | .insert n _ | .select n | .count n =>
           if !t.isBound then (if (lookupName s n).isNone then some (.err .bind) else none)
           else (match t.btab with
                 | some tb => if s.tables.contains tb then none else some (.err .notfound)
@@ -518,12 +536,23 @@ def stepTxnPinned (s : Sys) (th : Tid) (m : Mode) (tb : Nat) : Option Sys :=
           | some (.select _), .ro => true
           | some (.count _), .ro => true
           | _, _ => false
-        if okMode then some (setTh s th { t with mode := m, tab := tb }) else none
+        if !okMode then none
+        else if m == .upd then
+          -- an update txn took the table's deletion lock before it pinned
+          if (heldBy s tb).isSome then none
+          else
+            let s1 := { s with tlocks := (tb, th) :: s.tlocks }
+            some (setTh (setTh s1 th { t with mode := m, tab := tb }) (parent th) { p with delE := some t.snapE })
+        else some (setTh s th { t with mode := m, tab := tb })
 
 def stepTxnLocked (s : Sys) (th : Tid) : Option Sys :=
     let t := getTh s th
-    if t.mode != .upd || (heldBy s t.tab).isSome then none
-    else some { s with tlocks := (t.tab, th) :: s.tlocks }
+    if t.mode != .upd || heldBy s t.tab != some th then none
+    else some s
+
+/-- `txn.lock.begin`: an update txn is about to await the table lock (nothing shared changes) -/
+def stepLockBegin (s : Sys) (_th : Tid) : Option Sys :=
+    some s
 
 def stepCommitBegin (s : Sys) (th : Tid) : Option Sys :=
     let t := getTh s th
@@ -549,7 +578,7 @@ def stepCommitBegin (s : Sys) (th : Tid) : Option Sys :=
        | some (.delete _ _ _), .upd =>
            (match p.mail with
             | some hs =>
-                if heldBy s t.tab != some th then none
+                if heldBy s t.tab != some th || handlersGone (s.k.status t.snapE) hs then none
                 else
                   let keys := sortKeys (dedupKeys (hs.map (·.1)))
                   some (setTh (withK s (kAllocDv s.k keys.length)) th
@@ -700,6 +729,7 @@ def astep (s : Sys) : Act → Option Sys
   | .unpin th e => stepUnpin s th e
   | .txnPinned th m tb => stepTxnPinned s th m tb
   | .txnLocked th => stepTxnLocked s th
+  | .lockBegin th => stepLockBegin s th
   | .commitBegin th => stepCommitBegin s th
   | .commitA th => stepCommitA s th
   | .panic th => stepPanic s th
